@@ -590,6 +590,14 @@ def m_option(ctx):
         return on_variant(ex, st, o, {'Some': tk, 'None': lambda s2, o2: none()})
     if op == 'or':
         return on_variant(ex, st, o, {'Some': lambda s2, o2: o2, 'None': lambda s2, o2: s2.tr(A[1])})
+    if op == 'get_or_insert_with':
+        def have(s2, o2):
+            return Ref(('field', o2, ('Some', 0, variant_payload_type(o2.ty, 'Some'))))
+
+        def make(s2, o2):
+            ex.call_closure(s2, s2.tr(A)[-1], [], ctx.dest, ctx.nxt, Cont('wrap', mode='set_some', orig=o2))
+            return PUSHED
+        return on_variant(ex, st, o, {'Some': have, 'None': make})
     if op in ('replace', 'insert'):
         def rp(had):
             def f(s2, o2):
@@ -709,6 +717,10 @@ def resume(ex, st, cont, rv, work):
             return 'model', [(rv, (lambda s2: s2.tr(o))), (z3.Not(rv), none())]
         if mode == 'discard':
             return 'value', cont.data['orig']
+        if mode == 'set_some':
+            o = cont.data['orig']
+            o.discr = 'Some'; o.fields[('Some', 0)] = rv
+            return 'value', Ref(('field', o, ('Some', 0, variant_payload_type(o.ty, 'Some'))))
         return 'value', rv
     if k in RESUMERS:
         return RESUMERS[k](ex, st, cont, rv, work)
